@@ -5,6 +5,7 @@
 import GeonumModel.Lemmas.AngleStep
 import GeonumModel.Spec.RealWitness
 import GeonumModel.Lemmas.Exact
+import GeonumModel.Lemmas.FloatDivF
 
 set_option linter.unusedSectionVars false
 set_option linter.unusedVariables false
@@ -156,6 +157,41 @@ theorem divF_total_real {a : Angle ℝ} {k : ℝ} (ha : a.Inv) (hk : 0 < k) (hb 
   exact ⟨δ, hδ, by rw [hdef]; exact hT, rfl⟩
 
 end E
+
+/-! ### B-tier: `Angle / f64` in rounded arithmetic -/
+section B
+variable {F : Type} [FloatSpec F]
+
+/-- (B) **dividing an angle by a positive number divides its total, in rounded arithmetic**: for every canonical angle with up to
+    `2^42` blades and every finite divisor `k ≥ 1e-100` with quotient total at most `2^40` radians, the result is canonical, both
+    spellings agree, and the float total `Tq = blade·(π_f/2) + rem` of `a / k` is `Tq a / k` to within the `1e-10` snap plus
+    `16·2⁻⁵³` relative — through all seven roundings (`blade·qp`, `+ rem`, `/ k`, `· π`, `/ π`, exact `fmod`, snap); no whole turn
+    appears or disappears -/
+theorem divF_float {a : Angle F} {k : F} (ha : a.Inv) (hbl : a.blade ≤ 2 ^ 42) (hk : Fin k)
+    (hk0 : 1 / 10 ^ 100 ≤ val k) (hs : Angle.Tq a / val k ≤ 2 ^ 40) :
+    (a.divF k).Inv ∧ a.divFR k = a.divF k ∧
+    |Angle.Tq (a.divF k) - Angle.Tq a / val k| < val (e10 : F) + (Angle.Tq a / val k) * (16 * (1 / 2 ^ 53)) + 1 / 10 ^ 150 :=
+  Angle.divF_float ha hbl hk hk0 hs
+
+/-- the two spellings of the total used in this file and in the lemma layer are the same function -/
+theorem T_eq_Tq (a : Angle F) : T a = Angle.Tq a := rfl
+
+end B
+
+/-- non-vacuity of `divF_float`: `[blade 3, rem 0] / 2.0` in any conforming arithmetic -/
+example {F : Type} [FloatSpec F] :
+    (Angle.divF (⟨zero, 3⟩ : Angle F) two).Inv := by
+  have h2 : val (two : F) = 2 := val_two
+  have hq := val_qp_lt (F := F); have hq' := val_qp_gt (F := F)
+  refine (divF_float (inv_zero 3) (by norm_num) fin_two (by
+    rw [h2]
+    calc (1:ℝ) / 10 ^ 100 ≤ 1 := by rw [div_le_one (by positivity)]; exact one_le_pow₀ (by norm_num)
+      _ ≤ 2 := by norm_num) ?_).1
+  unfold Angle.Tq; simp only; rw [val_zero, h2]; push_cast
+  have : (3:ℝ) * val (qp : F) + 0 ≤ 6 := by linarith
+  have : ((3:ℝ) * val (qp : F) + 0) / 2 ≤ 3 := by linarith
+  have : (3:ℝ) ≤ 2 ^ 40 := by norm_num
+  linarith
 
 example {F : Type} [FloatSpec F] : (⟨zero, 3⟩ : Angle F).Inv ∧ (⟨zero, 5⟩ : Angle F).Inv := ⟨inv_zero 3, inv_zero 5⟩
 
